@@ -23,6 +23,10 @@ mod c03_special;
 mod c16_split;
 #[cfg(kani)]
 mod c04_neighbours;
+#[cfg(kani)]
+mod c05_tree;
+#[cfg(kani)]
+mod c01_decomp;
 
 #[cfg(kani)]
 mod playback_slot;
